@@ -61,7 +61,7 @@ pub fn path_string(rng: &mut Rng, hostile: bool, x: i32, y: i32) -> String {
     }
     if hostile && rng.chance(1, 6) {
         let at = rng.below(toks.len() + 1);
-        toks.insert(at, rng.pick(&["", "x", "1:", "B", "L", "1e9:5", "P", "Q"]).to_string());
+        toks.insert(at, rng.pick(&["", "x", "1:", "B", "L", "1e9:5", "P", "Q", "B0", "B00", "B-1", "B2147483648", "B+0", "B1", "B99"]).to_string());
     }
     toks.join("|")
 }
@@ -167,7 +167,7 @@ pub fn gen_map(rng: &mut Rng, o: &GenOpts) -> String {
         let bl = if unin {
             rng.pick(&["500", "333.333333333333", "250", "600", "1000", "375.5"]).to_string()
         } else if h && rng.chance(1, 5) {
-            rng.pick(&["-100000", "NaN", "-1", "-0.5", "0"]).to_string()
+            rng.pick(&["-100000", "NaN", "-1", "-0.5", "0", "-0.002", "-1e-300", "-1e300", "1e-300", "-0"]).to_string()
         } else {
             // (the last four: velocities that differ from a neighbour's by about 1e-7 - different values, not repeats)
             rng.pick(&["-100", "-50", "-200", "-133.333333333333", "-80", "-66.6666666666667", "-125", "-100", "-50",
